@@ -68,6 +68,28 @@ theorem minv_s {s s' : St} {a : SAct} (hm : MInv s) (hcv : CInv s) (hs : sStep s
         · intro _; exact hts
         · intro _; exact Or.inl rfl
         · simp
+      · rename_i k hw
+        have hno : s.own ≠ .s := by intro hc; rcases h4 hc with h | h <;> rw [hw] at h <;> cases h
+        have hnt : s.thd ≠ .s := by
+          intro hc; rcases h8 hc with h | h <;> rw [hw] at h <;> simp [SPC.holdsT] at h
+        refine { ownD := h1, ownW := h2, ownS1 := ?_, ownS2 := ?_, thdD := h5, thdW := h6, thdS1 := ?_,
+                 thdS2 := ?_, canc := ?_ }
+        · simp
+        · intro hc; exact absurd hc hno
+        · simp [SPC.holdsT]
+        · intro hc; exact absurd hc hnt
+        · simp
+      · rename_i hw
+        have hno : s.own ≠ .s := by intro hc; rcases h4 hc with h | h <;> rw [hw] at h <;> cases h
+        have hnt : s.thd ≠ .s := by
+          intro hc; rcases h8 hc with h | h <;> rw [hw] at h <;> simp [SPC.holdsT] at h
+        refine { ownD := h1, ownW := h2, ownS1 := ?_, ownS2 := ?_, thdD := h5, thdW := h6, thdS1 := ?_,
+                 thdS2 := ?_, canc := ?_ }
+        · simp
+        · intro hc; exact absurd hc hno
+        · simp [SPC.holdsT]
+        · intro hc; exact absurd hc hnt
+        · simp
       · rename_i hw
         have hno : s.own ≠ .s := by intro hc; rcases h4 hc with h | h <;> rw [hw] at h <;> cases h
         have hnt : s.thd ≠ .s := by
@@ -131,6 +153,23 @@ theorem minv_s {s s' : St} {a : SAct} (hm : MInv s) (hcv : CInv s) (hs : sStep s
     split at hs
     · simp only [Option.some.injEq] at hs; subst hs
       rename_i hw
+      have hts : s.thd = .s := h7 (by rw [hw]; rfl)
+      have hno : s.own ≠ .s := by intro hc; rcases h4 hc with h | h <;> rw [hw] at h <;> cases h
+      have hnw : ∀ j, holdsT (pc s j) = false := by
+        intro j; cases hh : holdsT (pc s j) with
+        | false => rfl
+        | true => have := (h6 j).mpr hh; rw [hts] at this; cases this
+      refine { ownD := h1, ownW := h2, ownS1 := ?_, ownS2 := ?_, thdD := ?_, thdW := ?_, thdS1 := ?_,
+               thdS2 := ?_, canc := ?_ }
+      · simp
+      · intro hc; exact absurd hc hno
+      · simp
+      · intro j; show Own.none = Own.w j ↔ holdsT (pc s j) = true; simp [hnw j]
+      · simp [SPC.holdsT]
+      · simp
+      · simp
+    · simp only [Option.some.injEq] at hs; subst hs
+      rename_i k hw
       have hts : s.thd = .s := h7 (by rw [hw]; rfl)
       have hno : s.own ≠ .s := by intro hc; rcases h4 hc with h | h <;> rw [hw] at h <;> cases h
       have hnw : ∀ j, holdsT (pc s j) = false := by
@@ -479,12 +518,12 @@ theorem ginv_w {s s' : St} {i : Nat} {a : WAct} (hm : MInv s) (hw : GInv s) (hs 
   · rw [e1]; intro hc
     have ht := g1 hc
     cases a with
-    | lockT => have := hgT rfl; rw [this] at ht; cases ht
+    | lockT | lockTF => have := hgT rfl; rw [this] at ht; cases ht
     | unlockT => have := hthdI.mpr (tp.mpr (Or.inr rfl)); rw [this] at ht; cases ht
     | _ => exact ht
   · rw [e1]; intro hc; apply g2
     cases a with
-    | lockT => simp [wEffect] at hc
+    | lockT | lockTF => simp [wEffect] at hc
     | unlockT => simp [wEffect] at hc
     | _ => exact hc
   · cases a with
